@@ -190,9 +190,9 @@ unsafe fn do_copy(name: &str, f: CopyFn, base: *mut u8, l: usize, n: usize, d: u
     kv(false, "d", d as i64);
     kv(false, "s", s as i64);
     flush();
-    mark(b"B", base);
+    mark(b"B", base, d, n, s);
     let r = f(base.add(d), base.add(s), n);
-    mark(b"E", base);
+    mark(b"E", base, d, n, s);
     kv(false, "ret", r as i64 - base as i64);
     put_runs(base, l, s as i64 - d as i64, true);
     puts("}\n");
@@ -220,9 +220,9 @@ unsafe fn do_set(f: SetFn, base: *mut u8, l: usize, n: usize, d: usize, c: i32) 
     kv(false, "d", d as i64);
     kv(false, "c", i64::from(c));
     flush();
-    mark(b"B", base);
+    mark(b"B", base, d, n, usize::MAX);
     let r = f(base.add(d), c, n);
-    mark(b"E", base);
+    mark(b"E", base, d, n, usize::MAX);
     kv(false, "ret", r as i64 - base as i64);
     put_runs(base, l, 0, false);
     puts("}\n");
@@ -294,11 +294,13 @@ static mut STEP_MARK: bool = false;
 
 /// marker for the single-step tracer: write(-1, tag, 1) fails with EBADF and changes nothing
 #[inline(never)]
-fn mark(tag: &'static [u8; 1], base: *const u8) {
+fn mark(tag: &'static [u8; 1], base: *const u8, d: usize, n: usize, s: usize) {
     unsafe {
         if core::ptr::addr_of!(STEP_MARK).read_volatile() {
-            // (the count register carries the arena address for the tracer; the call fails before looking at it)
+            // (the count register carries the arena address for the tracer, the unused argument registers the
+            // call's destination offset, length and source offset; the call fails before looking at any of it)
             core::arch::asm!("syscall", inlateout("rax") 1usize => _, in("rdi") -1isize, in("rsi") tag.as_ptr(), in("rdx") base as usize,
+                             in("r10") d, in("r8") n, in("r9") s,
                              lateout("rcx") _, lateout("r11") _, options(nostack));
         }
     }
